@@ -845,6 +845,25 @@ namespace
                     wire<VDErrRec>(w, sid, errors);
                 }
             }
+            else if (kind == "switch")
+            {
+                // in=<key ts>,<held ts>[,<held ts 2>]  cases=<keyvalue>:<slot>,...  [dflt=<slot>] [reload=1]
+                stdlib::SwitchCases cases;
+                const bool          two = in.size() > 2;
+                auto fn_of = [&](int k) -> WiredFn {
+                    if (two) { return dispatch_slot<SubG2>(k, [&]<typename G>() { return fn<G>(); }); }
+                    return dispatch_slot<SubG1>(k, [&]<typename G>() { return fn<G>(); });
+                };
+                for (auto &c : split(l.gets("cases", ""), ','))
+                {
+                    auto kv = split(c, ':');
+                    cases.cases.push_back(stdlib::SwitchCase{Value{Int{std::stol(kv.at(0))}}, fn_of(static_cast<int>(std::stol(kv.at(1))))});
+                }
+                if (l.has("dflt")) { cases.default_branch = fn_of(static_cast<int>(l.geti("dflt"))); }
+                cases.reload_on_ticked = l.geti("reload", 0) != 0;
+                if (two) { env.ports.emplace(id, wire<stdlib::switch_>(w, in.at(0), cases, in.at(1), in.at(2)).as<TS<Int>>()); }
+                else { env.ports.emplace(id, wire<stdlib::switch_>(w, in.at(0), cases, in.at(1)).as<TS<Int>>()); }
+            }
             else if (kind == "sched") { wire<VSched>(w, sid, in.at(0)); }
             else if (kind == "lsrc") { env.ports.emplace(id, wire<LSrc>(w, sid, Int{l.geti("cnt", 2)})); }
             else if (kind == "lpass") { env.ports.emplace(id, wire<LPass>(w, sid, in.at(0))); }
